@@ -167,7 +167,10 @@ def run_main_cli(model_spec, opts, inputs):
                     os.makedirs(os.path.join(tmpdir, f'd{k}'), exist_ok=True)
                     path = os.path.join(tmpdir, f'd{k}', 'amr.txt')
                 else:
-                    path = os.path.join(tmpdir, f'in{k}.txt')
+                    # a FILE argument is a file name, not a pattern: "in[0].txt" beside a decoy "in0.txt"
+                    path = os.path.join(tmpdir, f'in[{k}].txt')
+                    with open(os.path.join(tmpdir, f'in{k}.txt'), 'w', encoding='utf-8') as fh:
+                        fh.write('(decoy / decoy)\n')
                 with open(path, 'w', encoding=enc, newline='') as fh:
                     fh.write(text)
                 argv.append(path)
@@ -302,6 +305,31 @@ def run_real(op):
     return out
 
 
+def _edited_in_place(op, g):
+    """`editedFrom: [i, v]`: the graph object first spelled the source variable of triple i as v (and was
+    looked at and encoded in that state); the triple list was then edited in place, without changing
+    its length, into the graph of the operation.  What is encoded now is the graph as it is now."""
+    e = op.get('editedFrom')
+    if not e or not g.triples or e[0] >= len(g.triples):
+        return g
+    i, v = e
+    now = list(g.triples)
+    x = now[i][0]
+    if any(v in (t[0], t[2]) for t in now if isinstance(t[2], str)) or any(t[0] == v for t in now):
+        return g
+    # every occurrence of the variable x (the source of triple i) was spelled v at first
+    for k, t in enumerate(now):
+        g.triples[k] = (v if t[0] == x else t[0], t[1], v if (t[1] != ':instance' and t[2] == x) else t[2])
+    for f in (g.variables, g.edges, g.attributes, g.reentrancies, lambda: penman.encode(g), lambda: g.top):
+        try:
+            f()
+        except Exception:  # noqa: BLE001
+            pass
+    for k, t in enumerate(now):
+        g.triples[k] = t
+    return g
+
+
 def _beside(iterable):
     """an endless, never-raising stepper over another iterator (used to keep a second lexer alive)"""
     it = iter(iterable)
@@ -399,12 +427,12 @@ def _run_real(op):
             return res(lambda: penman.PENMANCodec(model=m).decode(op['s']), j_graph)
         return res(lambda: layout.interpret(_parse._parse(_lexer.lex(_input(op), pattern=_lexer.PENMAN_RE)), m), j_graph)
     if name == 'configure':
-        g = py_graph(op['graph'])
+        g = _edited_in_place(op, py_graph(op['graph']))
         if op.get('via') == 'public':
             return res(lambda: penman.configure(g, top=op.get('top'), model=model_arg(op)), j_tree)
         return res(lambda: layout.configure(g, top=op.get('top'), model=model_arg(op)), j_tree)
     if name == 'encode':
-        g = py_graph(op['graph'])
+        g = _edited_in_place(op, py_graph(op['graph']))
         if op.get('viaCodec'):
             return res(lambda: penman.PENMANCodec(model=model_arg(op)).encode(g, top=op.get('top'), **fmt_kw(op)))
         return res(lambda: penman.encode(g, top=op.get('top'), model=model_arg(op), **fmt_kw(op)))
